@@ -22,13 +22,32 @@ def run(cmd, timeout=60):
 
 
 # ------------------------------------------------------------------ CDL as printed by ncmpidump
+def unescape(t):
+    """C escapes as printed by ncmpidump (octal \\NNN, \\n, \\t, \\", \\\\ ...) -> characters (latin-1 code points)"""
+    out = []; i = 0
+    simple = {'n': '\n', 't': '\t', 'r': '\r', 'v': '\v', 'f': '\f', 'b': '\b', 'a': '\a', '\\': '\\', '"': '"', "'": "'", '?': '?'}
+    while i < len(t):
+        ch = t[i]
+        if ch != '\\' or i + 1 >= len(t): out.append(ch); i += 1; continue
+        nx = t[i + 1]
+        if nx in '01234567':
+            j = i + 1
+            while j < len(t) and j < i + 4 and t[j] in '01234567': j += 1
+            out.append(chr(int(t[i + 1:j], 8) & 0xFF)); i = j
+        elif nx in 'xX':
+            j = i + 2
+            while j < len(t) and j < i + 4 and t[j] in '0123456789abcdefABCDEF': j += 1
+            out.append(chr(int(t[i + 2:j], 16))); i = j
+        else: out.append(simple.get(nx, nx)); i += 2
+    return ''.join(out)
+
+
 def parse_values(txt):
     """list of (value, typehint) ; typehint from suffix / quoting"""
     txt = txt.strip()
     if txt.startswith('"'):
         s = re.findall(r'"((?:[^"\\]|\\.)*)"', txt)
-        raw = ''.join(s)
-        raw = raw.replace('\\n', '\n').replace('\\"', '"').replace('\\\\', '\\')
+        raw = unescape(''.join(s))
         return [(raw, 'char')]
     out = []
     for tok in [t.strip() for t in txt.split(',') if t.strip()]:
@@ -123,7 +142,10 @@ def cdl_vs_file(cd, f, data):
             continue
         if v.xtype == D.NC_CHAR:
             s = ''.join(x[0] for x in got if x[1] == 'char')
-            if s.encode('latin1', 'replace').rstrip(b'\0') != bytes(exp).rstrip(b'\0'): return 'data of %s: dump %r, file %r' % (v.name, s, bytes(exp))
+            gb = s.encode('latin1', 'replace'); ex = list(exp)
+            # trailing NULs are not printed; elements beyond the end of the file (None) are undefined
+            if any(e is not None and (gb[i] if i < len(gb) else 0) != e for i, e in enumerate(ex)) or any(c != 0 for c in gb[len(ex):]):
+                return 'data of %s: dump %r, file %r' % (v.name, s, exp)
         else:
             fv = next((a.values[0] for a in v.atts if a.name == '_FillValue' and len(a.values) == 1), DEFAULT_FILL[v.xtype])
             gv = [fv if x[0] is None else x[0] for x in got]        # '_' stands for the fill value
